@@ -115,6 +115,10 @@ pub struct Case {
     /// multiply the FTRL features by this (large values saturate the predicted probabilities)
     #[serde(default)]
     pub x_scale: f64,
+    /// multinomial NB: features are weighted counts (multiples of 1/8, so every sum stays exact)
+    /// instead of whole numbers, as after tf-idf or length normalisation
+    #[serde(default)]
+    pub fractional: bool,
     /// number of rows in one `predict` call (0 = the default dozen); above a thousand the
     /// call spans any internal block size
     #[serde(default)]
@@ -183,7 +187,7 @@ pub fn make_data(c: &Case) -> Data {
         for j in 0..c.d {
             x[[i, j]] = match c.learner {
                 // counts: small non-negative integers, class-dependent
-                Learner::Mnb => (r.below(4) + if j % c.k == cls { 3 } else { 0 }) as f64,
+                Learner::Mnb => (r.below(4) + if j % c.k == cls { 3 } else { 0 }) as f64 + if c.fractional { r.below(8) as f64 / 8.0 } else { 0.0 },
                 Learner::Ftrl => {
                     if r.chance(0.3) {
                         0.0
@@ -1458,6 +1462,7 @@ pub fn gen_case(r: &mut Prng, learner: Learner, big: bool) -> Case {
         } else {
             0.0
         },
+        fractional: learner == Learner::Mnb && r.chance(0.3),
         nq: if r.chance(0.08) { r.usize_in(1025, 2300) } else { 0 },
     }
     .with_precision(r, learner)
@@ -1582,6 +1587,11 @@ fn shrink_candidates(c: &Case) -> Vec<Case> {
     if c.nq > 0 {
         let mut d = c.clone();
         d.nq = 0;
+        v.push(d);
+    }
+    if c.fractional {
+        let mut d = c.clone();
+        d.fractional = false;
         v.push(d);
     }
     if c.x_scale != 0.0 {
